@@ -38,11 +38,11 @@ theorem c11_encode_decode_encode (crc : Bytes → UInt32) (m : Module) (h : m.wf
 /-- **Round trip from arbitrary bytes** ("encoding a decoded module … decoding an encoded module
 reproduces the module" for modules that come out of `decode`).  Whatever a byte string decodes to,
 encoding and decoding it again gives the same module — provided its type tables are laid out
-canonically (`Module.offsetsCanonical`: no stray bytes in front of the first type entry, the one
-thing the decoder accepts and `encode` never writes; see `c11_counterexample_noncanonical_offsets`)
+canonically (`Module.firstOffsetsOk`: the first type entry starts right behind the offset table —
+the one freedom the decoder leaves and `encode` never uses; all other offsets are forced; see `c11_counterexample_noncanonical_offsets`)
 and the container is not within 1 MiB of 4 GiB. -/
 theorem c11_decode_encode_decode_partial (crc : Bytes → UInt32) (bytes : Bytes) (m : Module)
-    (h : decode crc bytes = .ok m) (hcan : m.offsetsCanonical = true)
+    (h : decode crc bytes = .ok m) (hcan : m.firstOffsetsOk = true)
     (hsz : bytes.length + 1048576 < 4294967296) :
     m.wf = true ∧ ∃ b', encode crc m = .ok b' ∧ decode crc b' = .ok m :=
   ⟨decode_wf crc bytes m h hcan hsz, decode_encode_decode crc bytes m h hcan hsz⟩
@@ -191,9 +191,9 @@ example : validateConstEntryFuel 0 [] 65 ⟨.primitive, none, .primitive 1 0⟩ 
 
 example : ∃ b, encode crc0 (exModule 0) = .ok b ∧ decode crc0 b = .ok (exModule 0) :=
   c11_decode_encode crc0 _ (by rfl)
-example : (exModule 0).offsetsCanonical = true := by rfl
+example : (exModule 0).firstOffsetsOk = true := by rfl
 set_option maxRecDepth 8192 in
-example : ∃ bytes m, decode crc0 bytes = .ok m ∧ m.offsetsCanonical = true ∧
+example : ∃ bytes m, decode crc0 bytes = .ok m ∧ m.firstOffsetsOk = true ∧
     bytes.length + 1048576 < 4294967296 := by
   obtain ⟨b, he, hd⟩ := c11_decode_encode crc0 (exModule 0) (by rfl)
   refine ⟨b, _, hd, by rfl, ?_⟩
@@ -211,7 +211,8 @@ whose first entry does not start right behind the offset table and keeps the off
 Compiler-emitted modules carry the canonical offsets (`compute_type_offsets_for_entries`). -/
 theorem c11_counterexample_noncanonical_offsets :
     decTypeTable 1 gapPayload = .ok (gapTable 12) ∧ (gapTable 12).wf 1 = false ∧
+    sectionFirstOffsetOk 1 (.typeTable (gapTable 12)) = false ∧
     decTypeTable 1 (encTypeTable 1 (gapTable 12)) = .ok (gapTable 8) ∧ gapTable 12 ≠ gapTable 8 :=
-  ⟨by rfl, by rfl, by rfl, by decide⟩
+  ⟨by rfl, by rfl, by rfl, by rfl, by decide⟩
 
 end TrustVerif.C11
